@@ -161,6 +161,28 @@ CHECKS.update({
         note=COMMON_NOTE + ' The reference emitter harness/emit_ref.py is trusted (written from the grammar, no code shared with uvl_writer).'),
 })
 
+CHECKS.update({
+    'C09': dict(technique='TLA+ surface-choice generator (FMSurface.tla) x reference models from TLC-enumerated / seeded-random-walk models; four independent '
+                          'reference emitters; ReadRef events judged by trace validation against the reference model (PreserveClauses); corpus files read '
+                          'and judged against the generator statistics, TLC recounting every file below the size bound',
+        design_ref='DESIGN.md section 8 (C09)',
+        text='FeatureIDE XML, FaMa XML, AFM and Glencoe documents emitted by independent emitters from ten reference models per format (greedy tag cover) '
+             'under all combinations of each format\'s syntactic freedoms (attribute order, mandatory="false"/abstract="false" written out, n-ary conj/disj, '
+             'graphics/description elements, whitespace, missing <constraints>, ids different from names, key order, extra keys): names, parents, groups, '
+             'flags must be as written and constraints equivalent to the n-ary meaning; a construct the library cannot represent (unknown rule, duplicate '
+             'feature name, relational AFM constraint, unknown Glencoe group type) must raise. Plus the shipped FaMa/Betty corpus: the twelve numbers of each '
+             '.statistics file must equal the numbers counted on the model read (TLC recounts them with its own operator on files <= the bound).',
+        note=COMMON_NOTE + ' The reference emitters and the .statistics parser are trusted; the Glencoe emitter is limited to syntactic freedom.'),
+    'C02': dict(technique='TLA+ well-formedness invariant (FMBase!WellFormedTree, FMAst!WellShaped) evaluated by TLC on the projection of every model returned by '
+                          'any of the six readers over three kinds of source: library-written documents of TLC-enumerated models, reference-emitter documents, '
+                          'shipped corpus files (trace validation)',
+        design_ref='DESIGN.md section 8 (C02)',
+        text='Every Read/ReadRef/ReadCorpus event of all six readers: one parentless root that is model.root, unique names, every other feature in exactly one '
+             'relation owned by its recorded parent, relations non-empty and pointing back to their owner, attributes pointing back to their feature, '
+             'every constraint tree well-shaped (unary operand on the left, binary operands both present) and get_features() returning exactly the names in it. '
+             'The projection walks the object graph itself (not get_features/get_relations), so a misplaced operand or stale parent pointer is visible.'),
+})
+
 REASON_TODO = 'check not built yet (build in progress; see DESIGN.md section 12)'
 
 
